@@ -104,6 +104,34 @@ def replay_localapp(rec, m):
                 out = type(e).__name__
             now = os.getcwd()
             return now != cwd0, f"run() with a missing binary: {out}; cwd before={cwd0} after={now}"
+        if "call_was_allowed" in ob and m.get("state0") in STATE:
+            # drive a real LocalApp into the state of the counter-model, then call join()
+            s0 = STATE[m["state0"]]
+            app = LProbe("/bin/true" if s0 != AppState.RUNNING else os.path.join(fix, "sleeper"))
+            if s0 != AppState.CREATED:
+                app.start()
+            if s0 == AppState.FINISHED:
+                app.get_process().wait(timeout=5)
+                app.get_app_state()
+            elif s0 == AppState.JOINED:
+                app.join()
+            elif s0 == AppState.CANCELLED:
+                app.cancel()
+            before = (app._state, app.cleanups)
+            try:
+                app.join(timeout=0.3) if s0 == AppState.RUNNING else app.join()
+                out = "returned"
+            except Exception as e:
+                out = type(e).__name__
+            allowed = s0 in (AppState.RUNNING, AppState.FINISHED)
+            bad = (not allowed) and (out != "AppStateError" or (app._state, app.cleanups) != before)
+            if s0 == AppState.RUNNING:
+                try:
+                    app.get_process().kill()
+                except Exception:
+                    pass
+            return bad, (f"join() called in state {s0.name}: {out}; state {before[0].name} -> {app._state.name}, "
+                         f"clean_up calls {before[1]} -> {app.cleanups} (AppStateError and no side effect expected: {not allowed})")
         if ("LocalApp.join" in ob and "TimeoutError" in ob) or "LocalApp.cancel" in ob or "Application.cancel" in ob:
             import subprocess as sp
             app = LProbe(os.path.join(fix, "sleeper"))
